@@ -32,3 +32,6 @@ def nontrivial(s, r):
 
 def deepen(s, rng):
     return bprop.deepen(PID, s, rng)
+
+
+release_atomic = bprop.release_atomic
